@@ -144,6 +144,32 @@ def load_known():
 
 
 
+
+class Retag:
+    """View of a Report that files everything a shared rule function reports under one rule id of the importing property."""
+
+    def __init__(self, rep, rule):
+        self.rep, self.rule = rep, rule
+
+    def __getattr__(self, k):
+        return getattr(self.rep, k)
+
+    def oblige(self, ok, rule, key, where, msg, sample=None):
+        return self.rep.oblige(ok, self.rule, key, where, msg, sample)
+
+    def anchor(self, rule, ok, what):
+        return self.rep.anchor(self.rule, ok, what)
+
+    def floor(self, rule, count, minimum, what):
+        return self.rep.floor(self.rule, count, minimum, what)
+
+    def violation(self, rule, key, where, msg):
+        return self.rep.violation(self.rule, key, where, msg)
+
+    def inst(self, rule, desc, nontrivial=True, sample=None):
+        return self.rep.inst(self.rule, desc, nontrivial, sample)
+
+
 def import_rules(rep, fx, source_prop, as_rule, only_rules=None, floor=1, what=""):
     """Re-evaluate another property's rules on the same facts and import their obligations under `as_rule` of this report
     (a necessary clause shared between two properties is checked by one implementation). Fails closed."""
